@@ -552,7 +552,7 @@ impl Prop for C17 {
     fn spaces(&self, tier: Tier) -> Vec<Space> {
         let ex = exhaustive_cases().len() as u64;
         let (np, nn) = match tier {
-            Tier::Quick => (4000, 3000),
+            Tier::Quick => (20000, 15000),
             Tier::Thorough => (160_000, 140_000),
         };
         vec![
